@@ -108,14 +108,16 @@ def _rows(repo, res, bl):
             world = {"params": Tok("theta@ctor")}
             rec = []
 
-            def integ(func, jac, x0_, t0_, t_, *a, **kw):
-                rec.append({"func": func, "jac": jac, "x0": x0_, "t0": t0_, "t": t_, "kw": dict(kw), "extra": a, "params": world["params"]})
+            def integ(func, jac, x0, t0, t, *a, **kw):
+                rec.append({"func": func, "jac": jac, "x0": x0, "t0": t0, "t": t, "kw": dict(kw), "extra": a, "params": world["params"]})
                 return (X.copy(), {"info": Tok("info")}) if kw.get("full_output") else X.copy()
 
             def set_param(m_, th):
                 m_.attrs["_theta"] = Tok("theta<-%s" % (th.label if isinstance(th, Tok) else th))
-            summ = {"ode_utils.integrateFuncJac": integ, "Loss._setParam": set_param,
-                    "set:Model.parameters": lambda o, v: world.__setitem__("params", v)}
+            from ..core.symarr import np_summaries as _nps
+            summ = dict(_nps())
+            summ.update({"ode_utils.integrateFuncJac": integ, "Loss._setParam": set_param,
+                         "set:Model.parameters": lambda o, v: world.__setitem__("params", v)})
             for step, th in enumerate((first_theta, second_theta)):
                 if step == 1:
                     world["params"] = Tok("changed-from-outside")
